@@ -113,7 +113,11 @@ FRestart == /\ IsEv("restart") /\ StageRestartCtl /\ obs' = ObsOk /\ UNCHANGED n
 \* after the run: the options object handed to tdgl.solve compared with itself before the run, field by field;
 \* `changed` lists the fields that differ: a run must not rewrite what the caller asked for
 FOptions == /\ IsEv("options") /\ pc \in {"begin", "dead"} /\ Len(Ev.changed) = 0 /\ obs' = ObsOk /\ UNCHANGED vars
-FNext == FOptions \/ FRestart \/ FBegin \/ FLinks \/ FRefuse \/ FAnswer \/ FInduced \/ FFinish \/ FRaise \/ FFrame
+\* how tdgl.solve ended: the error raised inside update (retries exhausted, iteration limit) must come out of the run -
+\* "raises an error instead of continuing" - whether it happens at step 0, at a multiple of save_every or in thermalisation
+FSolveEnd == /\ IsEv("solve") /\ pc \in {"begin", "dead"} /\ Ev.raised = (IF pc = "dead" THEN why ELSE "none")
+             /\ obs' = ObsOk /\ UNCHANGED vars
+FNext == FSolveEnd \/ FOptions \/ FRestart \/ FBegin \/ FLinks \/ FRefuse \/ FAnswer \/ FInduced \/ FFinish \/ FRaise \/ FFrame
          \/ Silent(TestCtl /\ UNCHANGED nvars)
 
 TNext == (Exact /\ XNext) \/ (Flags /\ FNext)
